@@ -13,7 +13,7 @@ E == Events[i]
 Fails(e) ==
   IF e.refused THEN <<>>
   ELSE LET cl == Classify(e.d, e.text).c IN
-       IF cl = "unspec" THEN <<>>
+       IF cl = "unspec" THEN << "text-outside-the-canonical-forms" >>    \* an encoder must write a form the grammars fix the meaning of
        ELSE IF cl \notin {"date", "time", "datetime"} THEN << "text-is-not-temporal:" \o cl >>
        ELSE IF cl # e.f.kind THEN << "type-changed" >>
        ELSE IF ~SameInstant(TemporalFields(e.d, e.text), e.f, DefaultUTC(e.d)) THEN << "instant-or-precision-changed" >>
